@@ -19,7 +19,7 @@ fn main() {
         use similari::trackers::visual_sort::voting::VisualVoting;
         use similari::voting::Voting;
         use std::collections::BTreeMap;
-        let na = cli.cases(4000, 200_000);
+        let na = cli.cases(20_000, 200_000);
         for k in cli.index_range(na) {
             if k >> 40 != 0 {
                 continue;
@@ -56,7 +56,7 @@ fn main() {
             check_visual(&mut rep, idx, &stream, thr, f32::MAX, minv, &res, &ctx, "C12/engine");
         }
     }
-    let n = cli.cases(560, 12_000);
+    let n = cli.cases(800, 12_000);
     for idx in cli.index_range(n) {
         if idx >> 40 != 0 {
             continue;
